@@ -122,6 +122,15 @@ func CheckC16(g Cfg, prev, cur *Obs, o Op, out Outcome, led *Ledger) []Failure {
 			bad("c16-custody-delegation", "delegation %d: deposited %d, withdrawn %d, still held %d", d.ID, in, outv, d.Stake)
 		}
 	}
+	// every staker gets the deposit back: a validator whose scheduled exit block has passed must have exited (the exit moves the
+	// stake to cooldown; if the exit is lost the stake can never be withdrawn: it cannot be re-signalled either)
+	for _, v := range cur.Vals {
+		if v.V.Status == validation.StatusActive && v.V.ExitBlock != nil && *v.V.ExitBlock <= cur.Blk && *v.V.ExitBlock%g.Epoch == 0 {
+			bad("custody:scheduled-exit-lost-when-housekeeping-fails",
+				"validator %s is still active at block %d although its exit was scheduled for block %d; locked %d VET can neither be re-signalled nor withdrawn",
+				addrN(v.Addr), cur.Blk, *v.V.ExitBlock, v.V.LockedVET)
+		}
+	}
 	// a withdrawal must not fail with an internal (non-revert) error, and a delegation that is due (not started, or ended)
 	// must be paid its whole stake
 	if prev != nil && (o.K == "WS" || o.K == "WD") && out.Class >= 2 {
